@@ -222,3 +222,45 @@ def random_program(rng, pid, maxdepth=3):
 
     body = [I.assign(I.name("a"), I.site(k()))] + [stmt(1, False) for _ in range(rng.randint(2, 5))]
     return dict(I.program(f"p{pid}", ["x"], body, pid=pid), form="random", ctx="random", family="RND")
+
+
+def family_f16():
+    """declared-only variables and conditionally used undefined globals (C16)"""
+    progs = []
+    pid = 3000
+
+    def add(body, label, decl=None, gen=False):
+        nonlocal pid
+        pid += 1
+        d = dict(decl or {"var": "", "marker": ""})
+        d.setdefault("catches", label == "decl_in_try")
+        progs.append(dict(I.program(f"p{pid}", ["x"], body, pid=pid), form=label, ctx="f16", family="F16", decl=d))
+    k = K()
+    add([I.assign(I.name("a"), I.site(k())), I.expr(I.call(901)), I.ann("d", "int"), I.expr(I.call(902)), I.seen("d"),
+         I.ret(I.add(I.read("d"), I.read("a")))], "decl_top", {"var": "d", "marker": "901"})
+    k = K()
+    add([I.expr(I.call(901)), I.ann("d", "@T"), I.expr(I.call(902)), I.assign(I.name("b"), I.read("d")), I.seen("b"), I.ret(I.read("b"))],
+        "decl_tagged", {"var": "d", "marker": "901"})
+    k = K()
+    add([I.for_(I.name("i"), k(), [I.expr(I.call(901)), I.ann("d", "int"), I.expr(I.call(902)), I.seen("d")]), I.ret(I.site(k()))],
+        "decl_in_loop", {"var": "d", "marker": "901"})
+    k = K()
+    add([I.if_(k(), [I.expr(I.call(901)), I.ann("d", "int"), I.expr(I.call(902)), I.seen("d")], [I.assign(I.name("a"), I.site(k()))]),
+         I.ret(I.site(k()))], "decl_in_branch", {"var": "d", "marker": "901"})
+    k = K()
+    add([I.try_([I.expr(I.call(901)), I.ann("d", "int"), I.expr(I.call(902)), I.seen("d")], [I.handler("err", [I.assign(I.name("h"), I.site(k()))], typ="NameError")]),
+         I.ret(I.site(k()))], "decl_in_try", {"var": "d", "marker": "901"})
+    k = K()
+    add([I.expr(I.call(901)), I.ann("d", "int"), I.expr(I.call(902)), I.ann("e", "int"), I.expr(I.call(903)), I.seen("d"), I.seen("e"),
+         I.ret(I.add(I.read("d"), I.read("e")))], "decl_two", {"var": "d", "marker": "901", "var2": "e", "marker2": "902"})
+    # undefined globals
+    k = K()
+    add([I.assign(I.name("a"), I.site(k())), I.if_(k(), [I.assign(I.name("b"), I.read("UNDEF_G")), I.seen("b")]), I.ret(I.site(k()))], "undef_cond")
+    k = K()
+    add([I.assign(I.name("a"), I.site(k())), I.assign(I.name("b"), I.read("UNDEF_G")), I.ret(I.read("b"))], "undef_used")
+    k = K()
+    add([I.for_(I.name("i"), k(), [I.if_(k(), [I.expr(I.call(k(), I.read("UNDEF_G")))])]), I.ret(I.site(k()))], "undef_in_loop")
+    k = K()
+    add([I.try_([I.assign(I.name("b"), I.read("UNDEF_G"))], [I.handler("err", [I.assign(I.name("h"), I.site(k()))], typ="NameError")]),
+         I.ret(I.site(k()))], "undef_caught")
+    return progs
